@@ -54,7 +54,13 @@ func (q Query) domain(m *cypher.RegularQuery, b Bounds) Domain {
 		budget = q.Budget
 	}
 	if q.Source == "enum" {
-		return DomainFor(q.Text, b.MaxNodes, maxEdges, budget)
+		// Texts with three features are evaluated in the tame regime only (no self loops, no parallel relationships, one
+		// value type per key): outside it the recorded deviations of DAWGS combine in ways that cannot all be attributed,
+		// and what cannot be attributed is not judged. Texts with up to two features cover the full regime.
+		if len(q.Features) >= 3 && budget > 400 {
+			budget = 400
+		}
+		return DomainFor(q.Text, b.MaxNodes, maxEdges, budget, len(q.Features) >= 3)
 	}
 	return DomainForModel(m, q.Params, b.MaxNodes+q.ExtraNodes, maxEdges, budget, q.Source != "optimizer-seed")
 }
